@@ -747,7 +747,25 @@ impl Driver {
                     tcs.sort();
                     tcs.dedup();
                 }
-                let ctx = match if ranged { 0 } else { rng.gen_range(0..7) } {
+                let rep_cluster = !ranged && rng.gen_bool(0.1);
+                if rep_cluster {
+                    // ONE grapheme cluster of several non-ASCII code points (kept whole by grex) repeated: with escaping it
+                    // is several escapes, and the quantifier has to bind to all of them
+                    let cl = ["\u{1F1E9}\u{1F1EA}", "\u{1100}\u{1161}", "\u{1F44D}\u{1F3FB}", "\u{E01}\u{E33}", "\u{1100}\u{1161}\u{11A8}",
+                              "\u{2665}\u{FF9E}", "\u{663}\u{1F3FB}"][rng.gen_range(0..7)];
+                    let n = rng.gen_range(2..=4);
+                    let (pre, suf) = (["", "x", "\u{E9}"][rng.gen_range(0..3)], ["", "z", "\u{1F4A9}"][rng.gen_range(0..3)]);
+                    tcs = vec![format!("{}{}{}", pre, cl.repeat(n), suf)];
+                    if rng.gen_bool(0.4) {
+                        tcs.push(format!("{}{}{}", pre, cl.repeat(n + 1), suf));
+                    }
+                    if rng.gen_bool(0.3) {
+                        tcs.push(format!("{}{}", pre, suf));
+                    }
+                    tcs.sort();
+                    tcs.dedup();
+                }
+                let ctx = match if ranged || rep_cluster { 0 } else { rng.gen_range(0..7) } {
                     0 => base.with("rep", true),
                     1 => base.with("icase", true),
                     2 => base.with("word", true),
@@ -870,6 +888,21 @@ impl Driver {
                     tcs.sort();
                     tcs.dedup();
                     ctx = base.with("verbose", true).with("rep", rng.gen_bool(0.5));
+                }
+                if rng.gen_bool(0.1) {
+                    // a repeated unit that mixes a character converted to a class with a non-ASCII one that is not:
+                    // every member of the unit still has to be escaped
+                    let (flag, conv) = [("digit", "1"), ("digit", "\u{663}"), ("space", " "), ("space", "\u{a0}"), ("nonword", "-")][rng.gen_range(0..5)];
+                    let other = ["\u{E4}", "\u{1F4A9}", "\u{3C9}", "\u{10000}"][rng.gen_range(0..4)];
+                    let unit = if rng.gen_bool(0.5) { format!("{}{}", conv, other) } else { format!("{}{}{}", other, conv, other) };
+                    let n = rng.gen_range(2..=3);
+                    tcs = vec![format!("{}{}", unit.repeat(n), ["", "x", "\u{E9}"][rng.gen_range(0..3)])];
+                    if rng.gen_bool(0.4) {
+                        tcs.push(unit.repeat(n + 1));
+                    }
+                    tcs.sort();
+                    tcs.dedup();
+                    ctx = base.with(flag, true).with("rep", true).with("verbose", rng.gen_bool(0.25));
                 }
                 let e = ctx.with("escape", true);
                 mk(tcs.clone(), vec![run(ctx.clone(), &tcs), run(e.clone(), &tcs), run(e.with("surr", true), &tcs)])
